@@ -510,7 +510,7 @@ func checkC03(c *km.Ctx) {
 	// ---------- R-C03-4 automation
 	n := 0
 	for _, fn := range c.P.AllFuncs {
-		if fn.Pkg == nil || fn.Pkg.Pkg.Path() != KMD {
+		if fn.Pkg == nil || !pkgIsKMD(fn.Pkg) {
 			continue
 		}
 		for _, st := range storesByField(fn, KMD+".roleRequestingCertGenParams")["Duration"] {
